@@ -243,7 +243,7 @@ def R4_inside(run):
         def init_assume(which, val):
             at = ats[which + ".init"]
             # atom term is `initialized` possibly negated: cond true means (neg ? !init : init)
-            return (at, (not val) if at.neg else val)
+            return (at, val)
 
         def lt_assume(which, val):
             at, o = ats[which + ".lt"]
